@@ -10,6 +10,7 @@ import (
 	"math/rand"
 	"os"
 	"path/filepath"
+	"reflect"
 	"regexp"
 	"runtime/debug"
 	"strings"
@@ -249,6 +250,25 @@ func Execute(texts []string, names []string, useFiles bool) (outcome string, err
 				}
 				for _, u := range e.Uses {
 					_ = u.Grouping
+				}
+				// the tree hands out nodes of its own: the statements of the extensions written
+				// on a node, the nodes kept in Extra. They are Nodes like any other to the
+				// node-level API and to ToEntry.
+				for _, x := range e.Exts {
+					if x != nil {
+						yang.ToEntry(x).GetErrors()
+						yang.NodePath(x)
+						yang.FindNode(x, "../"+e.Name)
+						yang.Source(x)
+					}
+				}
+				for _, xs := range e.Extra {
+					for _, x := range xs {
+						if n, ok := x.(yang.Node); ok && n != nil && !reflect.ValueOf(n).IsNil() {
+							yang.NodePath(n)
+							yang.Source(n)
+						}
+					}
 				}
 				yang.CamelCase(e.Name)
 				e.IsLeaf()
